@@ -119,3 +119,22 @@ claim('C14',
       'sniffing / gzip / symlink semantics are outside.',
       'symbolic execution of the real Python over a symbolic fault schedule and symbolic path strings + SMT (z3)',
       'DESIGN.md section 5 C14')
+claim('C06',
+      'Bounded symbolic check of to_sky / to_pixel of every class against an opaque invertible WCS stub whose local scale '
+      'and north direction are arbitrary (the 1-arcsec probe maps to a fresh symbolic pixel): pixel->sky->pixel and '
+      'sky->pixel->sky restore class and every parameter exactly over the reals (sizes, angle, centre, vertices, text '
+      'rotation), meta/visual incl. the include flag are carried as copies, and SkyRegion.contains equals the pixel '
+      'image\'s contains at the converted position, for simple shapes, annuli, point/line/text and compounds.',
+      'The WCS itself (projections, frames, distortion) is a stub: astropy.wcs is C code; regions\' arithmetic and '
+      'bookkeeping are verified for every local scale and orientation.  One defect repaired (CompoundSkyRegion meta).',
+      'symbolic execution of the real Python with a stub WCS + SMT (z3 NRA)',
+      'DESIGN.md section 5 C06')
+claim('C07',
+      'Bounded symbolic check of sky->pixel conversion against an affine (tangent-plane) WCS stub with symbolic scale, '
+      'rotation (unit-circle atom), parity and reference pixel: centre = WCS image of the sky centre, every length = '
+      'angular size / local scale (1e-9 relative), width axis = (local north - 90 deg) turned by the sky angle (unit '
+      'vectors, exact), circle boundary points at 0.999 / 1.001 of the radius inside / outside; circle to_sky.',
+      'Stub = linearisation of an undistorted celestial WCS; curvature, distortion, other frames outside; proof guidance '
+      'by a proved lemma on the probe length.',
+      'symbolic execution of the real Python with an affine stub WCS + SMT (z3 NRA) with proved intermediate lemmas',
+      'DESIGN.md section 5 C07')
